@@ -40,12 +40,35 @@ func genSvc(r *kit.Rand, size int) (mode string, ops []string) {
 		mode += " " + kit.Esc(t)
 	}
 	last := map[string]int{}
+	since := map[string]int64{} // when the id left OK (duration = time - since: 0 for its FIRST non-OK event)
 	tm := int64(1000)
+	msgs := []string{"", "", "disk full", "m2"}
+	dets := []string{"", "", "<b>d</b>"}
+	// extras: the parts of an event state whose JSON is omitted when empty. Histories mix ids that have had exactly
+	// one non-OK event (duration 0) with ids that are non-OK for long, and empty with non-empty message/details.
+	extras := func(key string, l int) string {
+		if l == 0 {
+			delete(since, key)
+		} else if _, ok := since[key]; !ok {
+			since[key] = tm
+		}
+		d := int64(0)
+		if l != 0 {
+			d = (tm - since[key]) * 1000
+		} else if r.Chance(1, 2) {
+			d = int64(r.Range(1, 50)) * 1000 // a recovery reports how long the alert lasted
+		}
+		m, x := kit.Pick(r, msgs), kit.Pick(r, dets)
+		if d == 0 && m == "" && x == "" {
+			return ""
+		}
+		return fmt.Sprintf(" %d %s %s", d, kit.Esc(m), kit.Esc(x))
+	}
 	collect := func(T, id string) {
 		tm += int64(r.Range(1, 9))
 		l := nextLevel(r, last[T+"/"+id])
 		last[T+"/"+id] = l
-		ops = append(ops, fmt.Sprintf("collect %s %s %d %d", kit.Esc(T), kit.Esc(id), l, tm))
+		ops = append(ops, fmt.Sprintf("collect %s %s %d %d", kit.Esc(T), kit.Esc(id), l, tm)+extras(T+"/"+id, l))
 	}
 	for len(ops) < size {
 		T := kit.Pick(r, topics)
@@ -57,7 +80,7 @@ func genSvc(r *kit.Rand, size int) (mode string, ops []string) {
 			tm += int64(r.Range(1, 9))
 			l := r.Intn(4)
 			last[T+"/"+id] = l
-			ops = append(ops, fmt.Sprintf("update %s %s %d %d", kit.Esc(T), kit.Esc(id), l, tm))
+			ops = append(ops, fmt.Sprintf("update %s %s %d %d", kit.Esc(T), kit.Esc(id), l, tm)+extras(T+"/"+id, l))
 		case k < 84:
 			ops = append(ops, "close "+kit.Esc(T))
 			if r.Chance(1, 2) {
@@ -72,6 +95,7 @@ func genSvc(r *kit.Rand, size int) (mode string, ops []string) {
 			ops = append(ops, "deltopic "+kit.Esc(T))
 			for _, i := range ids {
 				last[T+"/"+i] = 0
+				delete(since, T+"/"+i)
 			}
 		}
 	}
@@ -83,8 +107,12 @@ func genNode(r *kit.Rand, size int, cfgNo int) (mode string, ops []string) {
 	cfgs := [][4]int{{1, 1, 0, 0}, {1, 0, 0, 0}, {1, 1, 1, 0}, {0, 1, 0, 0}, {1, 1, 1, 0}, {1, 1, 0, 1}, {1, 0, 1, 0}, {0, 1, 1, 1}, {1, 1, 1, 1}, {1, 1, 1, 0}}
 	c := cfgs[cfgNo%len(cfgs)]
 	mode = fmt.Sprintf("mode node %d %d %d %d", c[0], c[1], c[2], c[3])
-	nI := r.Range(1, 3)
-	ids := idPool[:nI]
+	nI := r.Range(1, 4)
+	ids := make([]string, nI)
+	off := r.Intn(len(idPool))
+	for i := range ids {
+		ids[i] = idPool[(off+2*i)%len(idPool)] // 2-4 ids in a mixed (not bytewise) order of first appearance
+	}
 	last := map[string]int{}
 	tm := int64(1000)
 	for len(ops) < size {
@@ -96,7 +124,11 @@ func genNode(r *kit.Rand, size int, cfgNo int) (mode string, ops []string) {
 		tm += int64(r.Range(1, 9))
 		l := nextLevel(r, last[id])
 		last[id] = l
-		ops = append(ops, fmt.Sprintf("point %s %d %d", kit.Esc(id), l, tm))
+		note := ""
+		if r.Chance(1, 2) {
+			note = " " + kit.Pick(r, []string{"n1", "rack%207"})
+		}
+		ops = append(ops, fmt.Sprintf("point %s %d %d", kit.Esc(id), l, tm)+note)
 	}
 	return mode, ops
 }
